@@ -98,3 +98,12 @@ def loose_views(s0: int, s1: int, form: int, damaged: bool, cut: int) -> bool:
     post: _
     """
     return _loose('views', s0, s1, form, damaged, cut)
+
+
+def loose_inv_big(s0: int, form: int, damaged: bool) -> bool:
+    """
+    Known content of up to 6 MiB re-added while its loose copy may be damaged (same length).
+    pre: 140000 <= s0 <= 6300000 and 0 <= form <= 2
+    post: _
+    """
+    return _loose('inv', s0, 7, form, damaged, 0)
